@@ -350,3 +350,36 @@ Definition mon_ever_approved (digest : N -> N) (p : obs * list N) : bool :=
 
 Definition mon_only_approved_k (digest : N -> N) (p : obs * list N) : bool :=
   mon_only_approved digest (fst p).
+
+(* ---------- what ran against what the user approved; what may change the cached bytes ---------- *)
+
+(* the approvals given during a history (most recent first), on top of [A] *)
+Fixpoint approvals_after (digest : N -> N) (A : list N) (h : list (server * inv)) : list N :=
+  match h with
+  | [] => A
+  | (s, i) :: rest => approvals_after digest (approvals_of digest s i ++ A) rest
+  end.
+
+(* the cached bytes, if any, are the ones whose digest is on record *)
+Definition cache_consistent (digest : N -> N) (st : cache) : bool :=
+  match c_content st with
+  | Some c => opt_eqb (c_sum st) (Some (digest c))
+  | None => true
+  end.
+
+(* C20 (a'), guarding the cache itself: the cached bytes only change to what the
+   server offered in time, together with their checksum, and only if the user
+   approved or that checksum was already the approved one (or everything is wiped
+   by --clear-cache); and a consistent cache stays consistent.  A run that is
+   declined (104) therefore leaves no unapproved bytes behind for a later
+   --offline / fresh-cache / fallback run to pick up. *)
+Definition mon_content_guarded (digest : N -> N) (o : obs) : bool :=
+  (opt_eqb (c_content (o_post o)) (c_content (o_pre o))
+   || (i_clear (o_inv o) && cache_eqb (o_post o) empty_cache)
+   || match served (o_srv o) (i_timeout (o_inv o)) with
+      | Some w =>
+          opt_eqb (c_content (o_post o)) (Some w) && opt_eqb (c_sum (o_post o)) (Some (digest w))
+          && (approves (o_inv o) || opt_eqb (c_sum (o_pre o)) (Some (digest w)))
+      | None => false
+      end)
+  && (negb (cache_consistent digest (o_pre o)) || cache_consistent digest (o_post o)).
